@@ -96,6 +96,9 @@ pub enum Step {
 	ToExpiry { which: u16, delta: i8 },
 	/// replace the last `depth` blocks (1..=ANTI_REORG_DELAY) by depth+extra new ones
 	Fork { depth: u8, fates: Vec<Fate>, extra: u8 },
+	/// like `Fork`, with the depth chosen relative to the last block that contains a channel transaction:
+	/// adj 0 = just deep enough to remove that block, +1 one deeper, -1 the fork starts right above it
+	ForkTx { adj: i8, fates: Vec<Fate>, extra: u8 },
 	/// the recipient of a still unclaimed payment claims it
 	Claim { pay: u16 },
 }
@@ -1441,6 +1444,10 @@ impl Runner {
 						continue;
 					}
 					if let Some(parent) = self.rel_txs.get(&op.txid) {
+						// the test wallet never forgets the change output of a bump transaction that was reorganised out
+						if parent.output.get(op.vout as usize).map(|o| o.script_pubkey == wallet_script).unwrap_or(false) {
+							continue;
+						}
 						if parent.input.iter().any(|pi| told_spender.get(&pi.previous_output).map(|s| *s != op.txid).unwrap_or(false)) {
 							stale.push(format!("{}:{}", op.txid, op.vout));
 						}
@@ -1449,8 +1456,13 @@ impl Runner {
 			}
 		}
 		if !stale.is_empty() {
+			// (c) retraction: every effect of a transaction removed by a shallow reorg must be gone
 			self.out.labels.insert("claim-pursued-against-output-of-replaced-transaction".into());
 			self.say(format!("  stale claims against outputs of replaced transactions: {:?}", stale));
+			if !self.unburied_now() {
+				let tip = self.o_tip();
+				return Err(Failure::new("retraction", format!("at tip {}@{} the node still claims {:?}: outputs of a transaction that was reorganised out (never buried) and whose own input is meanwhile spent by a different confirmed transaction", short_hash(&tip.0), tip.1, stale)).with_key("retraction/claim-against-output-of-replaced-transaction"));
+			}
 		}
 		for op in self.obs.bump_outpoints.drain(..) {
 			if exists(&op, &self.obs.funding_rev) {
@@ -1648,9 +1660,18 @@ impl Runner {
 						self.builder_event(&mut trace, TEv::Connect(b), &plan)?;
 					}
 				},
-				Step::Fork { depth, fates, extra } => {
+				Step::Fork { .. } | Step::ForkTx { .. } => {
 					let h = self.sim.chain.height();
-					let d = (*depth as u32).clamp(1, ANTI_REORG_DELAY).min(h - floor);
+					let (depth, fates, extra) = match step {
+						Step::Fork { depth, fates, extra } => (*depth as u32, fates, extra),
+						Step::ForkTx { adj, fates, extra } => {
+							let last_tx = (floor + 1..=h).rev().find(|x| self.sim.chain.blocks[*x as usize].txdata.iter().any(|t| self.relevant.contains(&t.compute_txid())));
+							let d0 = last_tx.map(|x| h - x + 1).unwrap_or(1) as i64;
+							((d0 + *adj as i64).clamp(1, ANTI_REORG_DELAY as i64) as u32, fates, extra)
+						},
+						_ => unreachable!(),
+					};
+					let d = depth.clamp(1, ANTI_REORG_DELAY).min(h - floor);
 					if d == 0 {
 						continue;
 					}
